@@ -9,7 +9,7 @@
    MT19937 and the IIR / FIR designs), chirps, band-limited clicks, wav playback.
    Print Assumptions lists the axioms of Coq's classical real numbers only. *)
 From Coq Require Import Reals Lra Lia ZArith List.
-From PV Require Import Calib.RBase gen.CalibGen Calib.Laws gen.StimExprGen Spectrum.TrigSum Level.Spec Level.Proofs.
+From PV Require Import Calib.RBase gen.CalibGen Calib.Laws gen.StimExprGen Spectrum.TrigSum Level.Spec Level.Proofs Level.Filter.
 Open Scope R_scope.
 
 (* ---------------------------------------------------------------- level + d dB multiplies every sample by 10^(d/20) *)
@@ -66,6 +66,25 @@ Print Assumptions C08_noise_bounds.
 Theorem C08_gain : gain 0 = 1 /\ gain 20 = 10 /\ forall d, 0 < gain d.
 Proof. exact gain_facts. Qed.
 Print Assumptions C08_gain.
+
+(* filtered noises (scipy lfilter = the transposed-direct-form-II recurrence of Level/Filter.v, any order): the output is
+   jointly homogeneous in input and initial state, hence scales with the level / flips with the polarity from rest; with
+   taps and state that both scale (FIR noise) likewise; the (repaired) notch filter factory starts at rest *)
+Theorem C08_filtered_linear : forall c b a x z n,
+  lfilter b a (scale c x) (scale c z) = (scale c (fst (lfilter b a x z)), scale c (snd (lfilter b a x z))) /\
+  fst (lfilter b a (scale c x) (rest n)) = scale c (fst (lfilter b a x (rest n))) /\
+  lfilter (scale c b) a x (scale c z) = (scale c (fst (lfilter b a x z)), scale c (snd (lfilter b a x z))) /\
+  notch_output b a (scale c x) = scale c (notch_output b a x).
+Proof. exact filtered_linear. Qed.
+Print Assumptions C08_filtered_linear.
+
+(* the code before the repair of branch fix-C16C08 started the notch filter from lfilter_zi(b, a), a state that does not
+   depend on the carrier: its output did not scale with the level (nor flip with the polarity) *)
+Theorem C08_notch_unrepaired_refuted :
+  exists b a zi carrier c,
+    notch_output_unrepaired b a zi (scale c carrier) <> scale c (notch_output_unrepaired b a zi carrier).
+Proof. exact notch_unrepaired_refuted. Qed.
+Print Assumptions C08_notch_unrepaired_refuted.
 
 (* ---------------------------------------------------------------- polarity negates every sample *)
 Theorem C08_polarity : forall s sl sc su L pol i off fs f ph fc fm depth pl pc pu msf r w,
